@@ -64,6 +64,8 @@ def expT (c : Ctx) (x : Dec) (tape : Tape) : Option (Out × Tape) :=
     | .cp cp :: tape =>
       let res0 := cInexact ||| cRounded
       let ax := x.absD
+      -- the tape's cp comes from |x| rounded to a float64: one more digit when cp*23 is still just below |x|
+      let cp := if cp < 999 && ax.cmp { coeff := (cp + 1) * 23 } ≤ 0 && ax.cmp { coeff := cp * 23 } > 0 then cp + 1 else cp
       if ax.cmp { coeff := cp * 23 } > 0 then
         let res := res0 ||| cOverflow
         if x.sign < 0 then
